@@ -385,6 +385,16 @@ def run(ctx):
     ok = len(sf) == 1 and fld(sf[0].t) == "self.status[field.offset:field.offset + field.size]" and \
         fld(sf[0].v) == "getattr(self.fields, field.name)"
     ctx.ob("R3", CSR, "CSRStatus.__init__", "status[offset : offset+size] = field", ok, "" if ok else f"{[(a.t, a.v) for a in sf]}")
+    # a field *is* a signal: its declared reset value is the reset of that signal (a status field nothing drives combinationally
+    # starts from it; get_reset() below publishes the same value for the register)
+    fi = cm_.method("CSRField", "__init__")
+    sc = [c for c in ast.walk(fi) if isinstance(c, ast.Call) and norm(c.func) in ("Signal.__init__", "super().__init__")]
+    rk = [k for c in sc for k in c.keywords if k.arg == "reset"]
+    rv = [norm(n.value) for n in ast.walk(fi) if isinstance(n, ast.Assign) and norm(n.targets[0]) == "self.reset_value"]
+    ok = len(sc) == 1 and len(rk) == 1 and len(rv) == 1 and norm(rk[0].value) in (rv[0], "self.reset_value")
+    ctx.ob("R3", CSR, "CSRField.__init__", "the field signal resets to the declared reset value", ok,
+           "" if ok else f"Signal initialised with reset={[norm(k.value) for k in rk] or 'nothing'} while reset_value = {rv}: the hardware field starts "
+                         f"from another value than the one published", fi)
     gr = cm_.method("CSRFieldAggregate", "get_reset")
     ok = any(isinstance(n, ast.AugAssign) and isinstance(n.op, ast.BitOr) and norm(n.value) == "field.reset_value << field.offset" for n in ast.walk(gr))
     ctx.ob("R3", CSR, "CSRFieldAggregate.get_reset", "reset = OR of reset_value << offset", ok, "" if ok else "reset composition changed", gr)
